@@ -66,11 +66,12 @@ func pkTargets(f pkFamily) {
 	for ctor, mk := range f.mkPriv {
 		register(&Target{Name: f.pkg + ".PrivateKey/" + f.variant + "/" + ctor, Cost: f.cost, Obs: obsKey,
 			New: func(c *Call) any {
-				c.Site(f.pkg+"."+ctor, f.pkg+"."+ctor, f.pkg+".NewPublicKey", "secretdata.NewBytesFromData")
+				c.Site(f.pkg+".NewPublicKey", f.pkg+".NewPublicKey")
 				pub, err := f.mkPub(c.In(f.pubArg, pubRaw))
 				if !c.Check(err) {
 					return nil
 				}
+				c.Site(f.pkg+"."+ctor, f.pkg+"."+ctor, "secretdata.NewBytesFromData")
 				k, err := mk(secretdata.NewBytesFromData(c.In(f.privArg, privRaw), tok), pub)
 				if !c.Check(err) {
 					return nil
